@@ -3847,3 +3847,28 @@ def core_batch_schedule_ties(seed, variant):
         return {"order": seen[:200], "n": len(seen)}
 
     return sim, stats
+
+
+@scenario
+def ratelimit_nonintegral_periods(seed, variant):
+    """Rate limiters whose refill / leak / window periods are NOT a whole number of nanoseconds (3, 7, 9 per second,
+    windows of 1/3 s ...), with a queue behind them: the limiter's own notion of 'when is capacity available' and
+    its admission test must agree at the instant it wakes up, or the entity polls the same instant forever."""
+    from happysimulator.components.rate_limiter import (FixedWindowPolicy, LeakyBucketPolicy, RateLimitedEntity,
+                                                        SlidingWindowPolicy, TokenBucketPolicy)
+
+    _seed(seed)
+    v = variant % 4
+    sink = Sink("sink")
+    policy = [LeakyBucketPolicy(leak_rate=3.0), TokenBucketPolicy(capacity=2.0, refill_rate=7.0, initial_tokens=0.0),
+              FixedWindowPolicy(requests_per_window=2, window_size=1.0 / 3.0),
+              SlidingWindowPolicy(window_size_seconds=1.0 / 7.0, max_requests=2)][v]
+    limiter = RateLimitedEntity("limiter", downstream=sink, policy=policy, queue_capacity=200)
+    burst = req_source("burst", limiter, [40, 60, 50, 45][v], poisson=(v % 2 == 0), stop_after=1.0)
+    sim = Simulation(sources=[burst], entities=[limiter, sink], duration=20.0)
+
+    def stats():
+        return {"limiter": {"stats": _clean(limiter.stats), "queue_depth": limiter.queue_depth,
+                            "first_forwarded_ns": [t.nanoseconds for t in limiter.forwarded_times[:20]]}, "sink": sink_stats(sink)}
+
+    return sim, stats
